@@ -5,8 +5,9 @@
 (* not observable from outside and are silent steps of the specification.     *)
 EXTENDS SearchScn, TraceLib
 
-VARIABLE l
-tvars == <<scn, queue, g, tree, cur, lastE, todo, iters, outcome, pc, reop, l>>
+VARIABLES l,
+          mustExh   \* the recording says the time budget is certainly used up by now (a model call slept past it)
+tvars == <<scn, queue, g, tree, cur, lastE, todo, iters, outcome, pc, reop, exh, l, mustExh>>
 Ev == Rec[l]
 Devs == TraceDevs
 Chk(name, cond) == IF cond THEN TRUE ELSE PrintT(<<"FAILED", name, l>>) /\ FALSE
@@ -20,9 +21,10 @@ T_Setup == /\ Ev.ev = "Setup" /\ pc = "idle"
            /\ Chk("initial state", Ev.init_obs = Ev.init)
            /\ Chk("estimate", Adjacent(Ev) \/ HOK(Ev))
            /\ Chk("great-circle", Adjacent(Ev) \/ GcOK(Ev))
+           /\ mustExh' = FALSE
            /\ IF Adjacent(Ev)
               THEN /\ scn' = ScnOf(Ev) /\ pc' = "done" /\ outcome' = "ok" /\ tree' = <<>> /\ g' = <<>> /\ queue' = <<>>
-                   /\ cur' = 0 /\ lastE' = 0 /\ todo' = {} /\ iters' = 0 /\ reop' = FALSE
+                   /\ cur' = 0 /\ lastE' = 0 /\ todo' = {} /\ iters' = 0 /\ reop' = FALSE /\ exh' = -1
               ELSE Setup(ScnOf(Ev))
 
 (* A Relax event groups what the decorators saw about one incident edge.  Only what the property      *)
@@ -44,6 +46,7 @@ T_Relax == /\ Ev.ev = "Relax" /\ pc = "relax"
                         /\ (Ev.ae = <<>> /\ lastE # 0) => Delay(lastE, e) = 0
                 /\ (Valid(e, lastE) /\ Ev.est # -1) => Ev.est = Far(e)
                 /\ \E imp \in BOOLEAN : (imp => (Ev.te # 0)) /\ Relax(e, imp)
+           /\ mustExh' = (mustExh \/ Ev.slept)
 
 TreeRows == {[v |-> v, p |-> tree[v].p, e |-> tree[v].e, st |-> tree[v].st, acc |-> tree[v].acc, trv |-> tree[v].trv]
                : v \in DOMAIN tree}
@@ -54,7 +57,8 @@ T_End == /\ Ev.ev = "End" /\ pc = "done"
          /\ Chk("outcome", Ev.outcome = outcome)
          /\ outcome = "terminated" =>
                Chk("limit named", /\ Ev.msg_iter = (scn.itl >= 0 /\ iters + 1 > scn.itl)
-                                  /\ Ev.msg_size = (scn.szl >= 0 /\ Cardinality(DOMAIN tree) > scn.szl))
+                                  /\ Ev.msg_size = (scn.szl >= 0 /\ Cardinality(DOMAIN tree) > scn.szl)
+                                  /\ Ev.msg_rt = (Sched /\ exh >= 0))
          /\ (outcome = "ok" /\ ~EdgeMode) =>
                /\ Chk("iterations", Ev.iters = iters)
                /\ Chk("tree", {Ev.tree[i] : i \in DOMAIN Ev.tree} = TreeRows /\ Len(Ev.tree) = Cardinality(TreeRows))
@@ -100,18 +104,19 @@ T_End == /\ Ev.ev = "End" /\ pc = "done"
                ELSE IF reop /\ ~(scn.bad = {} /\ NoAccess) /\ "F-C03-a" \in Devs THEN Known("C03", "F-C03-a")
                ELSE Chk("C03 route state/cost is not the sum over its edges", FALSE)
          /\ pc' = "idle"
-         /\ UNCHANGED <<scn, queue, g, tree, cur, lastE, todo, iters, outcome, reop>>
+         /\ UNCHANGED <<scn, queue, g, tree, cur, lastE, todo, iters, outcome, reop, exh, mustExh>>
 
 (* silent steps (not observable through the decorators); pruned by the next recorded event *)
 NextIsRelaxAt(v) == l <= Len(Rec) /\ Ev.ev = "Relax" /\ Near(Ev.e) = v
-S_Test == TermTest /\ UNCHANGED l
-S_Pop  == /\ Pop /\ UNCHANGED l
+S_Test == /\ TermTest /\ UNCHANGED <<l, mustExh>>
+          /\ (mustExh /\ RtOn) => exh' >= 0          \* a budget that is certainly used up is seen as used up
+S_Pop  == /\ Pop /\ UNCHANGED <<l, mustExh>>
           /\ (pc' = "relax" /\ todo' # {}) => NextIsRelaxAt(cur')
           /\ pc' = "done" => (l <= Len(Rec) /\ Ev.ev = "End")
-S_EndExpand == EndExpand /\ UNCHANGED l
+S_EndExpand == EndExpand /\ UNCHANGED <<l, mustExh>>
 
 TInit == /\ l = 1 /\ scn = Idle /\ queue = <<>> /\ g = <<>> /\ tree = <<>> /\ cur = 0 /\ lastE = 0
-         /\ todo = {} /\ iters = 0 /\ outcome = "run" /\ pc = "idle" /\ reop = FALSE
+         /\ todo = {} /\ iters = 0 /\ outcome = "run" /\ pc = "idle" /\ reop = FALSE /\ exh = -1 /\ mustExh = FALSE
 TNext == \/ (l <= Len(Rec) /\ l' = l + 1 /\ (T_Setup \/ T_Relax \/ T_End))
          \/ S_Test \/ S_Pop \/ S_EndExpand
 TSpec == TInit /\ [][TNext]_tvars
